@@ -825,8 +825,12 @@ var MergeFunc = function.New(&function.Spec{
 			}
 		}
 
-		// the types all match, so use the first argument type
-		if matching {
+		// the types all match, so use the first argument type. (For object
+		// types the attributes collected above are the answer instead: null
+		// arguments are ignored, so if every argument is a null object the
+		// result is the empty object, and otherwise the collected attributes
+		// are exactly those of the shared type.)
+		if matching && !first.IsObjectType() {
 			return first, nil
 		}
 
